@@ -380,3 +380,29 @@ CHECKS["C08"] = dict(
     technique="property-based testing (rapid): model of the expected callback sequence + fold/Decode agreement",
     design_ref="DESIGN.md section 4, C08",
 )
+
+CHECKS["C07"] = dict(
+    pkg="c07", level="exploration",
+    props=[dict(name="TestPropOneClientPerNode", quick=48, thorough=16 * 120, shards_quick=12, shards_thorough=16, shrinktime="60s",
+                timeout_quick=1500, timeout_thorough=10800)],
+    rule="a real instance plus client.NewManager for a harness-defined node type Probe (child list probeKid) with parent type "
+         "probeHost; the instrumented client logs constructor, Run entry, Stop and Run return (Run returns a drawn 0-100 ms "
+         "after Stop). History of 4-14 steps without waiting between them (drawn 0-60 ms pauses): new probe under the root, a "
+         "group, a nested group, a probeHost or a variable (must get no client); new containers; mirror a probe under a "
+         "second parent; delete / undelete any edge (probe, ancestor group, child); add / remove a probeKid child; point "
+         "update. At a drawn checkpoint and at the end the harness triggers the manager's own scan (a nodeType point on "
+         "up.root.*, what any node creation does, re-sent every second) and waits, bounded by 20 s, until the log has been "
+         "quiet for 300 ms. Oracle: set of placements with a Run in progress == model set (one per live (parent,id) placement "
+         "reachable from the root through live group/probeHost nodes); the latest constructed config of each has the node's "
+         "current live children and the right id/parent; at no time two Runs of one placement overlap; after Manager.Stop, "
+         "Run returns within 12 s and no client Run is left. Non-trivial = an ancestor deletion/undeletion changed the set, "
+         "or a child was added/removed while >= 2 clients ran.",
+    assumptions=["interleavings are sampled (drawn pauses and return delays), not enumerated",
+                 "restarts the model does not require are allowed; only the set at quiescence and the absence of overlap are judged",
+                 "the manager's start-up window (a point written between its snapshot read and its subscription) is not decided"],
+    level_text="Generated node histories (rapid) against a reachability model of the placements that must have a client, observed through "
+               "an instrumented client registered with the public client.NewManager; exploration with sampled schedules.",
+    level_note="Trusted: the model's reading of scanHelper's domain (root, groups, configured parent types); the quiescence rule.",
+    technique="property-based testing (rapid): stateful history generation with an invariant at quiescence and a continuous no-overlap monitor",
+    design_ref="DESIGN.md section 4, C07",
+)
